@@ -133,9 +133,9 @@ public:
       prepro.set_result_var(argvar);
       return;
     } else if (ub<=0.0) {
-      auto res = MPD( AssignResult2Args(   // create newvar = -argvar
+      auto res = MPD( AssignResultVar2Args(   // create newvar = -argvar
             LinearFunctionalConstraint({ {{-1.0}, {argvar}}, 0.0 })) );
-      prepro.set_result_var(res.get_var());
+      prepro.set_result_var(res);           // a variable even if -argvar is constant
       return;
     }
     prepro.narrow_result_bounds(0.0, std::max(-lb, ub));
